@@ -491,3 +491,41 @@ func checkRelayPublishedReady(c *core.Ctx, rule string) {
 	c.Check(len(bad) == 0, rule, key, c.P.Pos(ctor.Pos()), "the relay is registered and the registry lock released only after its first connection exists",
 		strings.Join(uniq(bad), "; ")+": a second client connection picks up a relay without connections and panics in submit (rand.Intn(0)); its command gets no outcome")
 }
+
+// checkReaderAddressesReplies (R6.18): what tells a caller which of its requests a response answers - Key, Opaque and
+// the quiet flag - is taken from the handle the request was registered under (looked up by the reply's token), never
+// from the backend's reply: the pool rewrites opaques and sends every get as a loud one, so the reply's own fields
+// describe the pool's request, not the caller's. A response with the wrong quiet flag is not ticked off by the
+// caller's bookkeeping: the key is asked for again and answered more than once.
+func checkReaderAddressesReplies(c *core.Ctx, rule string) {
+	rd := findFunc(c, relBatched, "(*conn).reader", rolePoolReader)
+	if rd == nil {
+		c.Undecided(rule, "batched.(*conn).reader#addressing", "-", "reader not found")
+		return
+	}
+	counts := map[string]int{}
+	n := 0
+	ssax.Instrs(rd, func(ins ssa.Instruction) {
+		st, ok := ins.(*ssa.Store)
+		if !ok {
+			return
+		}
+		fa, ok := st.Addr.(*ssa.FieldAddr)
+		if !ok || !strings.HasSuffix(ssax.ShortType(fa.X.Type()), "common.GetEResponse") {
+			return
+		}
+		f, _ := ssax.FieldName(fa)
+		if f != "Key" && f != "Opaque" && f != "Quiet" {
+			return
+		}
+		n++
+		key := ordinalKey(counts, "batched.(*conn).reader#response."+f)
+		root, path := selPath(st.Val)
+		fromHandle := len(path) == 1 && strings.EqualFold(path[0], f) && strings.HasSuffix(ssax.ShortType(root.Type()), "reshandle")
+		c.Check(fromHandle, rule, key, c.P.Pos(st.Pos()), "taken from the caller's request handle",
+			fmt.Sprintf("field %s of the response handed to the caller is not the %s recorded in the request's handle: it is derived from the backend's reply, which describes the pool's own request (rewritten opaque, loud opcode)", f, strings.ToLower(f)))
+	})
+	if n == 0 {
+		c.Undecided(rule, "batched.(*conn).reader#addressing", c.P.Pos(rd.Pos()), "the reader builds no response")
+	}
+}
